@@ -156,6 +156,9 @@ pub fn specifications() -> Vec<&'static str> {
         "spec(universal)[first]: forall X (out(X) -> in(X)). spec(forward)[second]: forall X (in(X) -> out(X)).",
         "spec: forall X (out(X) <-> in(X) and not exists Y$i (Y$i = X + 1 and in(Y$i))).",
         "spec: forall X (out(X) <-> in(X) and exists Y (in(Y) and X < Y)).",
+        "spec: exists X (out(X) <-> in(X)).",
+        "spec: forall X exists Y (out(X) <-> in(Y) and X = Y).",
+        "spec: exists X (in(X) <-> not out(X)). spec: forall X (out(X) -> in(X)).",
     ]
 }
 
